@@ -33,6 +33,9 @@ type partialCase struct {
 	MaxBytes int        `json:"max_bytes"`
 	Read     int        `json:"read"` // messages read before Close
 	Next     string     `json:"next"`
+	// ShortRead n > 0: read number n (counting from 1) is Batch.Read with a 1-byte buffer (io.ErrShortBuffer: the message is
+	// skipped, the Conn stays usable); nothing is read after it.
+	ShortRead int `json:"short_read,omitempty"`
 }
 
 func init() { ev.Register("partial", func(tb ev.TB, c partialCase) { runPartial(tb, c) }) }
@@ -73,6 +76,12 @@ func runPartial(tb ev.TB, c partialCase) (readN int, closeClass string) {
 	b := ca.ReadBatchWith(kafka.ReadBatchConfig{MinBytes: 1, MaxBytes: c.MaxBytes, MaxWait: 20 * time.Millisecond})
 	expect := c.Start
 	for readN < c.Read {
+		if c.ShortRead == readN+1 {
+			if _, err := b.Read(make([]byte, 1)); err != nil && !errors.Is(err, io.ErrShortBuffer) && !errors.Is(err, io.EOF) && !isKafka(err) {
+				closeClass = "short-read-" + classify(err)
+			}
+			break
+		}
 		m, err := b.ReadMessage()
 		if err != nil {
 			break
@@ -85,7 +94,9 @@ func runPartial(tb ev.TB, c partialCase) (readN int, closeClass string) {
 		readN++
 	}
 	cerr := b.Close()
-	closeClass = classify(cerr)
+	if closeClass == "" {
+		closeClass = classify(cerr)
+	}
 	ca.SetDeadline(time.Now().Add(1500 * time.Millisecond))
 	resA, errA := next.Run(a, ca)
 	if cerr != nil && !isKafka(cerr) && !errors.Is(cerr, io.ErrShortBuffer) {
@@ -124,6 +135,9 @@ func TestPartialReads(t *testing.T) {
 		c.Start = int64(rapid.IntRange(0, int(total)-1).Draw(t, "start"))
 		c.MaxBytes = rapid.SampledFrom([]int{1 << 20, 1 << 20, 1 << 20, 400, 250, 150, 90}).Draw(t, "maxBytes")
 		c.Read = rapid.IntRange(0, int(total-c.Start)).Draw(t, "read")
+		if rapid.IntRange(0, 4).Draw(t, "short") == 0 {
+			c.ShortRead = 1 + rapid.IntRange(0, c.Read).Draw(t, "shortAt")
+		}
 		c.Next = rapid.SampledFrom([]string{"ReadLastOffset", "ReadOffsets", "ReadPartitions", "Brokers", "ApiVersions", "ReadBatch", "ReadMessage", "WriteMessages", "OffsetFetch", "Heartbeat"}).Draw(t, "next")
 		readN, cc := runPartial(t, c)
 		labels := []string{"partial_read", "close_" + cc}
@@ -140,6 +154,9 @@ func TestPartialReads(t *testing.T) {
 		}
 		if c.MaxBytes < 1<<20 {
 			labels = append(labels, "small_max_bytes")
+		}
+		if c.ShortRead > 0 {
+			labels = append(labels, "short_buffer_read")
 		}
 		ev.Case(fmt.Sprintf("partial %s log%v start%d read%d max%d next=%s close=%s", c.Profile, c.Log, c.Start, readN, c.MaxBytes, c.Next, cc), readN > 0 && compressed, labels...)
 		ev.Sample(c)
